@@ -4,7 +4,7 @@
    Model: Fix/Tags.v ([check] = verdict of an asn1c run, tied to libasn1fix by
    bin/vcheck C11).  Spec: Fix/Distinct.v ([distinct_spec], [tagging_wf]). *)
 From Coq Require Import ZArith List Bool.
-From A1 Require Import Fix.Tags Fix.Distinct Fix.DistinctProofs Fix.ComponentsOf Fix.ComponentsOfProofs.
+From A1 Require Import Fix.Tags Fix.Distinct Fix.DistinctProofs Fix.ComponentsOf Fix.ComponentsOfProofs Fix.TagMode Fix.TagModeProofs.
 Import ListNotations.
 Local Open Scope Z_scope.
 
@@ -181,3 +181,118 @@ Print Assumptions C11_compof_conservative_accept.
 Theorem C11_compof_conservative_crashes : forall m, xcheck (embed m) = XCrashes <-> check m = Crashes.
 Proof. exact xcheck_embed_crashes. Qed.
 Print Assumptions C11_compof_conservative_crashes.
+
+(* ================================================================ round 3: the tagging MODE along reference chains
+   of any length (Fix/TagMode.v: _asn1f_check_if_tag_must_be_explicit, _asn1f_fix_type_tag,
+   asn1f_fix_constr_autotag, asn1f_fetch_tags_impl, emit_tags_vectors) against X.680 31.2.7 / 30.6.
+   [ds] is ANY list of definitions: cycles, dangling references, repeated names included. *)
+
+(* a reference chain that ends has at most as many hops as there are definitions: the fuel
+   [length ds] of the model never cuts a chain short *)
+Theorem C11_chain_pigeonhole : forall ds b k e, reaches ds b k e -> (k <= length ds)%nat.
+Proof. exact reaches_short. Qed.
+Print Assumptions C11_chain_pigeonhole.
+
+(* the verdict "must be EXPLICIT" = "untagged CHOICE or open type behind untagged references"
+   (spec [uo]), for every chain *)
+Theorem C11_must_explicit_is_untagged_choice_or_open : forall ds fuel b, (length ds <= fuel)%nat ->
+  (must_explicit_c ds fuel b = true <-> uo ds b).
+Proof. exact must_explicit_iff. Qed.
+Print Assumptions C11_must_explicit_is_untagged_choice_or_open.
+
+(* the same decision taken after ONE hop (seeded change C11-5) is right for chains of at most
+   one hop and wrong beyond:  Name ::= [APPLICATION 1] CHOICE {..}  Alias ::= Name  /  "Alias" *)
+Theorem C11_one_hop_partial : forall ds fuel b,
+  (forall r d, b = BRef r -> tlookup ds r = Some d -> ~ is_bref (td_body d)) ->
+  must_explicit_1hop ds fuel b = must_explicit_c ds fuel b.
+Proof. exact one_hop_partial. Qed.
+Print Assumptions C11_one_hop_partial.
+
+Theorem C11_one_hop_refuted :
+  exists ds b, must_explicit_1hop ds (length ds) b = true /\ ~ uo ds b /\ must_explicit_c ds (length ds) b = false.
+Proof. exact one_hop_refuted. Qed.
+Print Assumptions C11_one_hop_refuted.
+
+(* _asn1f_fix_type_tag: the effective mode is X.680 31.2.7's, and the diagnostic appears exactly
+   for IMPLICIT written on an untagged CHOICE / open type; [tagging_mode] is functional *)
+Theorem C11_tagging_mode : forall ds tg fuel w b r, (length ds <= fuel)%nat ->
+  (fix_type_tag tg (must_explicit_c ds fuel b) w = r <-> tagging_mode ds tg w b r).
+Proof. exact fix_type_tag_iff. Qed.
+Print Assumptions C11_tagging_mode.
+
+(* asn1f_fix_constr_autotag: IMPLICIT unless the component is an untagged CHOICE / open type *)
+Theorem C11_automatic_mode : forall ds fuel b, (length ds <= fuel)%nat ->
+  automatic_mode ds b (auto_mode (must_explicit_c ds fuel b)).
+Proof. exact auto_mode_spec. Qed.
+Print Assumptions C11_automatic_mode.
+
+(* with the one-hop test: a legal IMPLICIT is refused, a default / automatic tag X.680 makes
+   IMPLICIT becomes EXPLICIT (both halves of what seeded change C11-5 does) *)
+Theorem C11_one_hop_mode_refuted :
+  exists ds b,
+    (forall tg, tagging_mode ds tg MImplicit b (MOk MImplicit)) /\
+    (forall tg, fix_type_tag tg (must_explicit_1hop ds (length ds) b) MImplicit = MErr) /\
+    tagging_mode ds TgImplicit MDefault b (MOk MImplicit) /\
+    fix_type_tag TgImplicit (must_explicit_1hop ds (length ds) b) MDefault = MOk MExplicit /\
+    automatic_mode ds b MImplicit /\
+    auto_mode (must_explicit_1hop ds (length ds) b) = MExplicit.
+Proof. exact one_hop_mode_refuted. Qed.
+Print Assumptions C11_one_hop_mode_refuted.
+
+(* the model of round 1 (Fix/Tags.v) takes the same decision: its [must_explicit] is
+   [must_explicit_c] on the image of the module, hence = the spec's [untagged_choice], in BOTH
+   directions (round 1 had "=>" only), and the diagnostic = failure of [implicit_ok] *)
+Theorem C11_must_explicit_abs : forall m p t,
+  must_explicit m p t = must_explicit_c (abs_defs m) (S (length (m_defs m))) (abs_ty t).
+Proof. exact must_explicit_abs. Qed.
+Print Assumptions C11_must_explicit_abs.
+
+Theorem C11_must_explicit_iff_untagged_choice : forall m p t, must_explicit m p t = true <-> untagged_choice m t.
+Proof. exact must_explicit_iff_untagged_choice. Qed.
+Print Assumptions C11_must_explicit_iff_untagged_choice.
+
+Theorem C11_implicit_diagnostic_iff : forall m p tg t, implicit_error m p tg t = false <-> implicit_ok m tg t.
+Proof. exact implicit_error_iff. Qed.
+Print Assumptions C11_implicit_diagnostic_iff.
+
+(* a run without "must be EXPLICIT" complaints leaves no IMPLICIT tag on an untagged CHOICE / open type *)
+Theorem C11_accepted_tags_legal : forall tg ds,
+  (forall d t, In d ds -> td_tag d = Some t -> resolve_tag tg ds t (td_body d) <> MErr) ->
+  defs_legal (resolve_defs tg ds).
+Proof. exact resolved_legal. Qed.
+Print Assumptions C11_accepted_tags_legal.
+
+(* asn1f_fetch_tags_impl (ADD_TAG / skip) on a legal module: what it returns is X.680's tag list,
+   and every non-empty X.680 tag list of a type that does not end in an open type is returned *)
+Theorem C11_fetch_tags_sound : forall ds, defs_legal ds -> forall fuel tg b l, tag_legal ds tg b ->
+  ctags ds fuel false 0 0 tg b = Some l -> tags_of ds tg b l.
+Proof. exact ctags_sound. Qed.
+Print Assumptions C11_fetch_tags_sound.
+
+Theorem C11_fetch_tags_complete_partial : forall ds tg b l fuel, tags_of ds tg b l -> l <> [] -> ~ ends_open ds b ->
+  (length ds <= fuel)%nat -> ctags ds fuel false 0 0 tg b = Some l.
+Proof. exact ctags_complete. Qed.
+Print Assumptions C11_fetch_tags_complete_partial.
+
+(* emit_tags_vectors: the two vectors written into the generated code *)
+Theorem C11_emitted_tags_partial : forall ds tg b l a,
+  tags_of ds tg b l -> all_tags_of ds tg b a -> l <> [] -> ~ ends_open ds b ->
+  emitted_tags ds tg b = (l, a).
+Proof. exact emitted_tags_spec. Qed.
+Print Assumptions C11_emitted_tags_partial.
+
+Theorem C11_emitted_tags_sound : forall ds, defs_legal ds -> forall tg b e a, tag_legal ds tg b ->
+  emitted_tags ds tg b = (e, a) -> e <> [] -> tags_of ds tg b e /\ all_tags_of ds tg b a.
+Proof. exact emitted_tags_sound. Qed.
+Print Assumptions C11_emitted_tags_sound.
+
+Theorem C11_emitted_tags_untagged : forall ds b, uo ds b -> emitted_tags ds None b = ([], []).
+Proof. exact emitted_tags_untagged. Qed.
+Print Assumptions C11_emitted_tags_untagged.
+
+(* without "does not end in an open type":  An ::= [APPLICATION 2] EXPLICIT ANY  gets no tags
+   (finding C11-tagged-open-type-tags-dropped) *)
+Theorem C11_emitted_tags_open_refuted :
+  exists ds tg b l, defs_legal ds /\ tag_legal ds tg b /\ tags_of ds tg b l /\ l <> [] /\ emitted_tags ds tg b = ([], []).
+Proof. exact emitted_tags_open_refuted. Qed.
+Print Assumptions C11_emitted_tags_open_refuted.
